@@ -77,7 +77,7 @@ func runShutdown(scenario string) (rec shutRec) {
 		_ = a.Stop()
 		return rec
 	}
-	cctx, ccancel := context.WithTimeout(context.Background(), 5*time.Second)
+	cctx, ccancel := context.WithTimeout(context.Background(), scaled(5*time.Second))
 	err = a.Connect(cctx, *info)
 	ccancel()
 	if err != nil {
